@@ -41,8 +41,9 @@ Ancestors(dd, i)   == SClosure(dd, {i})
 (* Pipeline.root_args(output of i): non-output names reaching i through non-bound parameters *)
 RootArgsOf(dd, i)  == {p \in UNION {ParamsOf(dd, j) : j \in Ancestors(dd, i)} :
                           p \notin AllOutputs(dd) /\ \E j \in Ancestors(dd, i) : p \in ParamsOf(dd, j) /\ ~IsBound(dd, j, p)}
-(* the call supplies a value for an output of i itself or of a function i depends on *)
-SuppliedOnPath(dd, k, i) == \E n \in PKeys(k) : n \in AllOutputs(dd) /\ FuncOf(dd, n) \in Ancestors(dd, i)
+(* the call supplies a value for an output of a function i depends on (a supplied sibling output of i itself does  *)
+(* not change what i computes)                                                                                  *)
+SuppliedOnPath(dd, k, i) == \E n \in PKeys(k) : n \in AllOutputs(dd) /\ FuncOf(dd, n) \in Ancestors(dd, i) \ {i}
 (* a parameter bound in i is at the same time a root argument of i's output through another function *)
 BoundShadowsRoot(dd, i)  == \E p \in RootArgsOf(dd, i) : IsBound(dd, i, p)
 
